@@ -1601,6 +1601,10 @@ int asn1_time_to_str(int utc_time, time_t timestamp, char *str)
 	char *p = str;
 
 	utc_time &= 1;
+	if (timestamp < 0) {
+		error_print();
+		return -1;
+	}
 	day = timestamp / 86400;
 	second = timestamp % 86400;
 
